@@ -138,11 +138,16 @@ static void wake_waiters (nsync_dll_list_ to_wake_list, int all_readers) {
 	/* Wake any waiters we didn't manage to enqueue on the mu. */
 	for (p = nsync_dll_first_ (to_wake_list); p != NULL; p = next) {
 		struct nsync_waiter_s *p_nw = DLL_NSYNC_WAITER (p);
+		/* Fetch the semaphore before clearing p_nw->waiting: once
+		   that field is zero, the waiter may return and reuse *p_nw
+		   (it may be on the stack of nsync_wait_n()'s caller), so
+		   *p_nw must not be touched after the store.  */
+		nsync_semaphore *p_sem = p_nw->sem;
 		next = nsync_dll_next_ (to_wake_list, p);
 		to_wake_list = nsync_dll_remove_ (to_wake_list, p);
 		/* Wake the waiter. */
 		ATM_STORE_REL (&p_nw->waiting, 0); /* release store */
-		nsync_mu_semaphore_v (p_nw->sem);
+		nsync_mu_semaphore_v (p_sem);
 	}
 }
 
@@ -471,18 +476,45 @@ static int cv_enqueue (void *v, struct nsync_waiter_s *nw) {
 static int cv_dequeue (void *v, struct nsync_waiter_s *nw) {
 	nsync_cv *pcv = (nsync_cv *) v;
 	int was_queued = 0;
+	int being_woken = 0;
 	/* acquire spinlock */
 	uint32_t old_word = nsync_spin_test_and_set_ (&pcv->word, CV_SPINLOCK, CV_SPINLOCK, 0);
 	if (ATM_LOAD_ACQ (&nw->waiting) != 0) {
-		pcv->waiters = nsync_dll_remove_ (pcv->waiters, &nw->q);
-		ATM_STORE (&nw->waiting, 0);
-		was_queued = 1;
+		/* nw->waiting!=0 does not imply that *nw is still on
+		   pcv->waiters:  nsync_cv_signal() and nsync_cv_broadcast()
+		   move waiters to a private list while holding the spinlock,
+		   but clear the waiting field only after releasing it, in
+		   wake_waiters().  So look for *nw in the queue, which is
+		   governed by the spinlock.  (A struct nsync_waiter_s has no
+		   remove_count to tell us more cheaply.)  */
+		nsync_dll_element_ *p = nsync_dll_first_ (pcv->waiters);
+		while (p != NULL && p != &nw->q) {
+			p = nsync_dll_next_ (pcv->waiters, p);
+		}
+		if (p != NULL) { /* still in cv waiter queue */
+			pcv->waiters = nsync_dll_remove_ (pcv->waiters, &nw->q);
+			ATM_STORE (&nw->waiting, 0);
+			was_queued = 1;
+		} else {
+			/* Some other thread has dequeued *nw and is about to
+			   set nw->waiting==0.  */
+			being_woken = 1;
+		}
 	}
 	if (nsync_dll_is_empty_ (pcv->waiters)) {
 		old_word &= ~(CV_NON_EMPTY);
 	}
 	/* Release spinlock. */
 	ATM_STORE_REL (&pcv->word, old_word); /* release store */
+	if (being_woken) {
+		/* *nw was woken, so report it as not still enqueued.  But wait
+		   until the waker has finished with *nw; the caller may
+		   discard *nw as soon as we return.  */
+		unsigned attempts = 0;
+		while (ATM_LOAD_ACQ (&nw->waiting) != 0) { /* acquire load */
+			attempts = nsync_spin_delay_ (attempts);
+		}
+	}
 	return (was_queued);
 }
 
